@@ -202,6 +202,8 @@ def gen_cases(ctx):
     # ---- grammars on which Pager's gc REALLY removes states (rare among random grammars): only there does
     #      the renumbering of the surviving states run, so only there can a pop-order leak into the state
     #      numbering show up across processes (mirror: C15_gc_order_insensitive / C15_gc_renumbering_monotone) ----
+    for src, _, _ in G.rare_shape_corpus():
+        add("rare_shapes", "ON"[len(cases) % 2], G.from_text(src), n_inputs=3)
     for fam, texts in (("gc_corpus", G.gc_corpus()), ("gc_chain_corpus", G.gc_chain_corpus())):
         k = min(len(texts), ctx.n(25, 60))
         step = max(1, len(texts) // max(k, 1))
